@@ -13,6 +13,7 @@ import FlacModel.Model.Finalize
 import Driver.Gen
 import FlacModel.Model.FileDecode
 import FlacModel.Model.Ctor
+import FlacModel.Model.FrameWf
 import Driver.Meta
 
 open Flac
@@ -110,6 +111,15 @@ def opEncframe (f : Fields) (impl : Fields) (implHead : String) (profile : Profi
     let ch := ((f.get "ch").toNat?).getD 1
     let verdict := specCheckFrame bytes (((f.get "rate").toNat?).getD 44100) ch (((f.get "bps").toNat?).getD 16)
                      (some (((f.get "n").toNat?).getD 0)) pcm
+    -- the emitted frame lies in the domain of the round-trip theorem `C01.frame_roundtrip` and is the serialization
+    -- of its own parse (so the theorem speaks about exactly these bytes)
+    let verdict := if verdict != "ok" then verdict else
+      match parseFrame decLayout true none bytes with
+      | .error e => s!"FAIL model-parser-rejects-encoder-output {failStr e}"
+      | .ok pr =>
+        if !frameWfB none pr.frame then "FAIL encoder-frame-outside-roundtrip-domain"
+        else if pr.frame.serialize != bytes then "FAIL encoder-frame-not-its-own-serialization"
+        else "ok"
     -- the crate-decoder model on the same bytes (ties Model/Decode to the spec on real output)
     let m := match decodeFrame profile none bytes with
       | .ok d => s!"ok dec={joinInts (interleave d.channels)}"
